@@ -179,3 +179,6 @@ ben("c01-wave-guard-greater", "C01", "stepper/_wave.py", "jnp.where(self.wavenum
 ben("c11-wave-guard-greater", "C11", "stepper/_wave.py", "jnp.where(self.wavenumber_norm == 0, 1.0, self.wavenumber_norm)", "jnp.where(self.wavenumber_norm > 0, self.wavenumber_norm, 1.0)", "the norm is non-negative: > 0 is the complement of == 0", count=2)
 mut("c06-special-branch-differs", "C06", "stepper/generic/_vorticity_convection.py", "            return VorticityConvection2d(\n                self.num_spatial_dims,\n                self.num_points,\n                convection_scale=self.vorticity_convection_scale,", "            return VorticityConvection2d(\n                self.num_spatial_dims,\n                self.num_points,\n                convection_scale=1.0,", "the injection_scale == 0 special case builds another stepper than the general branch at 0 (cf. seeded S29)")
 ben("c06-special-branch-swapped", "C06", "stepper/generic/_vorticity_convection.py", "            isinstance(self.injection_scale, (int, float))\n            and self.injection_scale == 0.0\n        ):", "            isinstance(self.injection_scale, (int, float))\n            and 0.0 == self.injection_scale\n        ):", "comparison written the other way round")
+mut("c12-negative-injection-dropped", "C12", "stepper/generic/_vorticity_convection.py", "            and self.injection_scale == 0.0\n", "            and self.injection_scale <= 0.0\n", "negative injection scales silently build the unforced term (seeded S33)")
+mut("c06-value-range-branch", "C06", "stepper/generic/_vorticity_convection.py", "            and self.injection_scale == 0.0\n", "            and self.injection_scale <= 0.0\n", "eager construction follows the value range, a traced one cannot")
+ben("c12-value-range-warning-only", "C12", "stepper/generic/_vorticity_convection.py", "        if (\n            isinstance(self.injection_scale, (int, float))\n            and self.injection_scale == 0.0\n        ):", "        if isinstance(self.injection_scale, (int, float)) and self.injection_scale < 0.0:\n            print(\"negative injection\")\n        if (\n            isinstance(self.injection_scale, (int, float))\n            and self.injection_scale == 0.0\n        ):", "a value-range branch without effect on the stepper")
